@@ -117,7 +117,7 @@ MORE['C14'] = dict(
           "the generated lock facts: PutOperation, DeleteOperation, GetOperations hold the repository mutex for their whole body and do not re-enter it), unlocked_rmw_loses_put (the pinned tree's sequences lose a new operation with one pre-emption), "
           "reset_during_tick_skips_log (KNOWN-FINDING C14-reset-during-poll: a reset inside a poll tick leaves the new database at an advanced offset). Props/C14Rounds.lean, the stored rounds (one value for all rounds, SaveFSM = read-modify-write): rounds_rmw_locked (kernel-evaluated over Gen/RoundLock.lean: every method of the node service that writes a round does so under roundsMu - fix 02d4900), "
           "locked_saves_commute, unlocked_save_loses_round (explicit interleaving in which saving one round undoes the save of another). Not proved: the Go memory model / that a mutex-protected sequence is an atomic step. Tie: scheddiff runs the two activities as goroutines over the same real services and enumerates schedules with up to 3 pre-emptions at the granularity of "
-          "state-store reads/writes and board sends (twelve request/message pairs (incl. save_offset back / forward against a tick of two messages: fix 62396d7; SrcFacts.tick_and_saveoffset_exclude: tick and SaveOffset hold tickMu from their first statement; Props/C14Tick.lean: saveoffset_inside_tick_is_lost (the schedule of the pinned tree whose result is that of neither serial order), saved_inside_is_overwritten, locked_tick_is_serial; the poll thread runs the node's own tick through the hook VerifTick): a late signing answer, approving an invitation, a state reset, finishing a re-initialisation against a message of another round and of the same round, and the answer to each of the four key-generation steps against the other participants' messages of that step); the final state must equal one of the two serial orders."),
+          "state-store reads/writes and board sends (thirteen request/message pairs (incl. save_offset back / forward against a tick of two messages: fix 62396d7; SrcFacts.tick_and_saveoffset_exclude: tick and SaveOffset hold tickMu from their first statement; Props/C14Tick.lean: saveoffset_inside_tick_is_lost (the schedule of the pinned tree whose result is that of neither serial order), saved_inside_is_overwritten, locked_tick_is_serial; the poll thread runs the node's own tick through the hook VerifTick): a late signing answer, approving an invitation, a state reset, finishing a re-initialisation against a message of another round and of the same round, and the answer to each of the four key-generation steps against the other participants' messages of that step); the final state must equal one of the two serial orders."),
     ref='7 C14', note=NODE_NOTE)
 
 AIR_NOTE = ("Trusted: Lean kernel + the three standard axioms; the airdiff correspondence (real machines stopped / reopened / replayed at every restart point; bookkeeping of the durable log predicted by the compiled Lean model); verif hooks "
